@@ -44,6 +44,39 @@ func findMemoFields(info *types.Info, fds []*ast.FuncDecl) []memoField {
 				return true
 			}
 			be, ok := is.Cond.(*ast.BinaryExpr)
+			if ok && be.Op == token.EQL && types.ExprString(be.Y) == "nil" {
+				// the other spelling: if <recv>.C == nil { …; <recv>.C = … }; return (*)<recv>.C
+				if f := fieldOf(info, be.X); f != nil {
+					filled, returned := false, false
+					ast.Inspect(is.Body, func(y ast.Node) bool {
+						if as, ok := y.(*ast.AssignStmt); ok {
+							for _, l := range as.Lhs {
+								if fieldOf(info, l) == f {
+									filled = true
+								}
+							}
+						}
+						return true
+					})
+					ast.Inspect(fd.Body, func(y ast.Node) bool {
+						if ret, ok := y.(*ast.ReturnStmt); ok {
+							for _, r := range ret.Results {
+								ast.Inspect(r, func(z ast.Node) bool {
+									if se, ok := z.(*ast.SelectorExpr); ok && fieldOf(info, se) == f {
+										returned = true
+									}
+									return true
+								})
+							}
+						}
+						return true
+					})
+					if filled && returned {
+						cache = f
+					}
+				}
+				return true
+			}
 			if !ok || be.Op != token.NEQ || types.ExprString(be.Y) != "nil" {
 				return true
 			}
